@@ -151,6 +151,10 @@ func init() {
 		func(w *CliWorld, r *RunResult) { r.Nontrivial = c02Nontrivial(w) }))
 	register(srvFamily("C14", "c14-server", 2, GenC14, c14Online, c14Final,
 		func(w *SrvWorld, r *RunResult) { r.Nontrivial = c14Nontrivial(w) }))
+	register(srvFamily("C14", "c14-server-padded", 1, GenC14Padded, c14Online, c14Final,
+		func(w *SrvWorld, r *RunResult) { r.Nontrivial = c14Nontrivial(w) }))
+	register(srvFamily("C14", "c14-server-refused", 1, GenC14Refused, c14Online, c14Final,
+		func(w *SrvWorld, r *RunResult) { r.Nontrivial = true }))
 	register(&Family{Prop: "C13", Name: "c13", Weight: 1,
 		Gen: func(r *RNG) any { return GenC13(r) },
 		Run: func(plan any, tape *Tape, ss uint64) *RunResult {
@@ -194,6 +198,12 @@ type Replay struct {
 }
 
 func pickFamily(prop string, r *RNG) *Family {
+	if name := os.Getenv("VERIF_FAMILY"); name != "" {
+		// development aid: all runs from one family
+		if f := familyByName(prop, name); f != nil {
+			return f
+		}
+	}
 	fs := families[prop]
 	tot := 0
 	for _, f := range fs {
